@@ -23,7 +23,7 @@ def sh(cmd, cwd=None, env=None, timeout=1800):
 
 
 def worktree(prop, variant):
-    return {'C': '/tmp/seed2_', 'D': '/tmp/seed2_', 'E': '/tmp/seed3_', 'F': '/tmp/seed3_', 'G': '/tmp/seed4_', 'H': '/tmp/seed4_', 'I': '/tmp/seed5_', 'J': '/tmp/seed5_'}.get(variant, '/tmp/seed_') + prop
+    return {'C': '/tmp/seed2_', 'D': '/tmp/seed2_', 'E': '/tmp/seed3_', 'F': '/tmp/seed3_', 'G': '/tmp/seed4_', 'H': '/tmp/seed4_', 'I': '/tmp/seed5_', 'J': '/tmp/seed5_', 'K': '/tmp/seed6_', 'L': '/tmp/seed6_'}.get(variant, '/tmp/seed_') + prop
 
 
 def out_dir(prop, variant):
